@@ -9,11 +9,10 @@ import Mathlib.Tactic.Common
 
 namespace StirVerif.C05
 
-/-- the flags tell the truth about what was set up, and "not set up" is not combined with `latestOrig = true`
-    (the one combination on which the value path's condition `already || !latest` does nothing) -/
+/-- the flags tell the truth about what was set up (whenever `already` / `normSetup` say that something was);
+    nothing is required of the members without initialiser while `already` / `normSetup` are `false` -/
 def invB (s : St) : Bool :=
-  (!s.already || s.workers == some s.latestOrig) && (!s.normSetup || s.norm == some s.normOrig) &&
-    (s.already || !s.latestOrig)
+  (!s.already || s.workers == some s.latestOrig) && (!s.normSetup || s.norm == some s.normOrig)
 
 /-- one step from a state satisfying the invariant: the request is served with the projectors and the normalisation
     set-up it needs, no `error`, and the invariant holds again -/
@@ -41,33 +40,30 @@ theorem run_ok (sameProj : Bool) (s : St) (h : invB s = true) (rs : List Req) : 
         simp only [hst, Option.getD_some] at hb
         exact ih s' h2 b hb
 
-/-- after `set_up_before_sensitivity` followed by at least one sensitivity request the invariant holds whatever the
-    indeterminate members were -/
-theorem inv_afterSetUp_recompute (sameProj : Bool) (n : Nat) (hn : 0 < n) (g g2 : Bool) :
-    invB (St.afterSetUp sameProj true n g g2) = true := by
-  obtain ⟨m, rfl⟩ : ∃ m, n = m + 1 := ⟨n - 1, by omega⟩
-  unfold St.afterSetUp
-  simp only [if_true, List.replicate_succ, List.foldl_cons]
-  have h1 : ∀ (sameProj g g2 : Bool), invB ((step sameProj (St.afterSetUpBefore g g2) Req.sensitivity).getD (St.afterSetUpBefore g g2)) = true := by
-    decide
-  have hstep : ∀ (sameProj : Bool) (s : St), invB s = true → invB ((step sameProj s Req.sensitivity).getD s) = true := by
-    intro sameProj s hs
-    have := step_ok sameProj s Req.sensitivity hs
-    simp only [Bool.and_eq_true] at this
-    cases hst : step sameProj s Req.sensitivity with
-    | none => simp [hst] at this
-    | some s' => simpa [hst] using this.2
-  have : ∀ (k : Nat) (s : St), invB s = true →
-      invB ((List.replicate k Req.sensitivity).foldl (fun s r => (step sameProj s r).getD s) s) = true := by
-    intro k
-    induction k with
-    | zero => intro s hs; simpa using hs
-    | succ k ih => intro s hs; simp only [List.replicate_succ, List.foldl_cons]; exact ih _ (hstep sameProj s hs)
-  exact this m _ (h1 sameProj g g2)
+/-- the state left by `set_up_before_sensitivity` satisfies the invariant whatever the indeterminate members are -/
+theorem inv_afterSetUpBefore (g g2 : Bool) : invB (St.afterSetUpBefore g g2) = true := by
+  revert g g2; decide
 
-/-- without recomputation of the sensitivities the invariant holds iff the indeterminate member happens to be `false` -/
-theorem inv_afterSetUp_norecompute (sameProj : Bool) (n : Nat) (g2 : Bool) :
-    invB (St.afterSetUp sameProj false n false g2) = true := by
-  unfold St.afterSetUp; simp; revert g2; decide
+/-- … and so does the state after `set_up`, with or without (re)computation of the sensitivities, for any number of subsets -/
+theorem inv_afterSetUp (sameProj recompute : Bool) (n : Nat) (g g2 : Bool) :
+    invB (St.afterSetUp sameProj recompute n g g2) = true := by
+  unfold St.afterSetUp
+  cases recompute
+  · simpa using inv_afterSetUpBefore g g2
+  · simp only [if_true]
+    have hstep : ∀ (s : St), invB s = true → invB ((step sameProj s Req.sensitivity).getD s) = true := by
+      intro s hs
+      have := step_ok sameProj s Req.sensitivity hs
+      simp only [Bool.and_eq_true] at this
+      cases hst : step sameProj s Req.sensitivity with
+      | none => simp [hst] at this
+      | some s' => simpa [hst] using this.2
+    have : ∀ (k : Nat) (s : St), invB s = true →
+        invB ((List.replicate k Req.sensitivity).foldl (fun s r => (step sameProj s r).getD s) s) = true := by
+      intro k
+      induction k with
+      | zero => intro s hs; simpa using hs
+      | succ k ih => intro s hs; simp only [List.replicate_succ, List.foldl_cons]; exact ih _ (hstep s hs)
+    exact this n _ (inv_afterSetUpBefore g g2)
 
 end StirVerif.C05
